@@ -54,6 +54,8 @@ impl<'a> TemporalPruner<'a> {
                     {
                         let zones = cal.zones_intersecting(CompareOp::Eq, cal_ts);
                         zone_ids = zones.iter().map(|zid| zid as u32).collect();
+                    } else {
+                        return None;
                     }
                 } else if let Ok(cal) = self.artifacts.load_field_calendar(segment_id, uid, column)
                 {
@@ -95,6 +97,8 @@ impl<'a> TemporalPruner<'a> {
                         };
                         let zones = cal.zones_intersecting(cmp, cal_ts);
                         zone_ids = zones.iter().map(|zid| zid as u32).collect();
+                    } else {
+                        return None;
                     }
                 } else if let Ok(cal) = self.artifacts.load_field_calendar(segment_id, uid, column)
                 {
